@@ -13,7 +13,7 @@ Proof.
   destruct (ncr && is_rollback w && (w_commit w =? c_start a)); [intros E; inversion E; reflexivity|].
   assert (G : forall nsne0,
     (let '(ngv0, ret0) := match w_kind w with
-                          | WPut => if ngv then (false, Some (w_value w)) else (ngv, ret)
+                          | WPut => if ngv then (false, if w_value w =? 0 then None else Some (w_value w)) else (ngv, ret)
                           | WDel => if ngv then (false, None) else (ngv, ret)
                           | _ => (ngv, ret)
                           end in
